@@ -107,7 +107,19 @@ func Styles(rt *rapid.T, n int) []model.StyleSpec {
 var classes = []string{"narrow-ascii", "space", "narrow", "combining", "zero", "wide", "emoji", "zwj", "vs16", "modifier", "flag"}
 
 // Grapheme draws a table grapheme, biased toward narrow and wide.
+// Only, when non-nil, restricts Grapheme to the listed graphemes.
+var Only map[string]bool
+
 func Grapheme(rt *rapid.T, label string) string {
+	for {
+		g := grapheme(rt, label)
+		if Only == nil || Only[g] {
+			return g
+		}
+	}
+}
+
+func grapheme(rt *rapid.T, label string) string {
 	var class string
 	switch rapid.IntRange(0, 11).Draw(rt, label+"-cls") {
 	case 0, 1, 2:
